@@ -45,6 +45,7 @@ import (
 	"git.torproject.org/pluggable-transports/snowflake.git/v2/common/namematcher"
 	"git.torproject.org/pluggable-transports/snowflake.git/v2/common/task"
 	"git.torproject.org/pluggable-transports/snowflake.git/v2/common/util"
+	"git.torproject.org/pluggable-transports/snowflake.git/v2/common/verifhook"
 	"git.torproject.org/pluggable-transports/snowflake.git/v2/common/websocketconn"
 	"github.com/gorilla/websocket"
 	"github.com/pion/ice/v2"
@@ -365,6 +366,7 @@ func (sf *SnowflakeProxy) makePeerConnectionFromOffer(sdp *webrtc.SessionDescrip
 	}
 	pc.OnDataChannel(func(dc *webrtc.DataChannel) {
 		log.Println("OnDataChannel")
+		verifhook.Point("proxy.session.ondatachannel")
 		close(dataChan)
 
 		pr, pw := io.Pipe()
@@ -539,6 +541,7 @@ func (sf *SnowflakeProxy) runSession(sid string) {
 	case <-dataChan:
 		log.Println("Connection successful.")
 	case <-time.After(dataChannelTimeout):
+		verifhook.Point("proxy.session.datachannel-timeout", sid)
 		log.Println("Timed out waiting for client to open data channel.")
 		if err := pc.Close(); err != nil {
 			log.Printf("error calling pc.Close: %v", err)
